@@ -40,7 +40,11 @@ import (
 //   writer the read is linearizable iff its result is the query's answer in the state after
 //   SOME prefix w_1..w_j with lo <= j <= hi.  A torn snapshot matches no prefix at all.
 //   obs = per recorded read: query index; lo; hi; #fields; rendered result.  Every read that
-//   overlapped a writer call (hi > lo) is recorded (up to cap per reader), of the others every 16th.
+//   overlapped a writer call (hi > lo) is recorded (up to cap per reader), of the others every 16th
+//   (if the writer contains Wipe calls: every read whose window contains one, of the others a sample).
+//   Variant "wipe": the setup puts the client on N channels, the writer does ONE Wipe() among
+//   cheap calls, the readers spin on Me() and GetChannel(first/last): a Me() listing k of N
+//   channels, 0 < k < N, matches no prefix (Wipe is one call).
 //   The observation depends on the schedule: a replay re-runs the race, it does not reproduce
 //   the recorded reads bit for bit.
 
@@ -506,6 +510,16 @@ func c14ExecHammer(in Fields) (obs Fields) {
 	for _, o := range setup {
 		c14Call(st, o)
 	}
+	// hot[k]: writer call k (1-based) is a multi-step call (Wipe); if there are any, reads whose
+	// window contains one are always recorded, other overlapping reads only every 8th
+	hot := make([]bool, len(writer)+2)
+	anyHot := false
+	for k, o := range writer {
+		if o.code == "WI" {
+			hot[k+1] = true
+			anyHot = true
+		}
+	}
 	var started, done, ready, panicked int32
 	var stop int32
 	reads := make([][]c14Read, R)
@@ -544,17 +558,25 @@ func c14ExecHammer(in Fields) (obs Fields) {
 				}
 			}()
 			barrier()
-			quiet := 0
+			quiet, busy := 0, 0
 			for n := r; ; n++ {
 				q := n % len(queries)
 				lo := int(atomic.LoadInt32(&done))
 				v := c14Call(st, queries[q])
 				hi := int(atomic.LoadInt32(&started))
-				if hi > lo {
+				isHot := false
+				for k := lo + 1; k <= hi && k < len(hot); k++ {
+					isHot = isHot || hot[k]
+				}
+				if hi > lo && (isHot || !anyHot) {
 					if len(reads[r]) < limit {
 						reads[r] = append(reads[r], c14Read{q, lo, hi, v.render()})
 					}
-				} else if quiet++; quiet%16 == 0 && len(reads[r]) < limit {
+				} else if hi > lo {
+					if busy++; busy%8 == 0 && len(reads[r]) < limit/2 {
+						reads[r] = append(reads[r], c14Read{q, lo, hi, v.render()})
+					}
+				} else if quiet++; quiet%16 == 0 && len(reads[r]) < limit/2 {
 					reads[r] = append(reads[r], c14Read{q, lo, hi, v.render()})
 				}
 				if atomic.LoadInt32(&stop) != 0 {
@@ -612,7 +634,12 @@ func c14Class(in Fields) string {
 		}
 		return "alias:len=250+"
 	case "hammer":
-		return "hammer"
+		for _, f := range in {
+			if string(f) == "WI" {
+				return "hammer:wipe"
+			}
+		}
+		return "hammer:fields"
 	case "conc":
 		ns := in.I(2)
 		T := in.I(3 + ns)
@@ -925,6 +952,53 @@ func c14Hammer(r *Rand) Fields {
 	return append(f, F(300)...)
 }
 
+// hammer variant for ONE multi-step call: the setup puts the client on N channels; the writer
+// warms up with cheap calls, performs ONE Wipe(), and finishes with a few more calls, while the
+// readers spin on Me() (whose Channels map lists all channels the client is on) and on
+// GetChannel(first)/GetChannel(last).  No prefix of the writer's calls leaves the client on k of
+// the N channels with 0 < k < N, so a Me() taken in the middle of a non-atomic Wipe fails the gate.
+func c14HammerWipe(r *Rand) Fields {
+	N := r.Range(60, 150)
+	name := func(i int) string { return fmt.Sprintf("#w%03d", i) }
+	var setup []c14Op
+	setup = append(setup, c14O("NN", "al"))
+	for i := 0; i < N; i++ {
+		setup = append(setup, c14O("NC", name(i)), c14O("AS", name(i), "me"))
+		if i%7 == 0 {
+			setup = append(setup, c14O("AS", name(i), "al"))
+		}
+	}
+	var w []c14Op
+	cnt := 0
+	ni := func() c14Op {
+		cnt++
+		si := fmt.Sprintf("%08d", cnt)
+		return c14O("NI", "me", "i"+si, "h"+si, "n"+si)
+	}
+	rounds := r.Range(3, 5)
+	for k := 0; k < rounds; k++ {
+		for i, pre := 0, r.Range(10, 40); i < pre; i++ {
+			w = append(w, ni())
+		}
+		w = append(w, c14O("WI"))
+		if k+1 < rounds { // put the client back on all N channels
+			for i := 0; i < N; i++ {
+				w = append(w, c14O("NC", name(i)), c14O("AS", name(i), "me"))
+			}
+		}
+	}
+	for i, post := 0, r.Range(5, 20); i < post; i++ {
+		w = append(w, ni())
+	}
+	queries := []c14Op{c14O("ME"), c14O("ME"), c14O("GC", name(0)), c14O("ME"), c14O("ME"), c14O("GC", name(N-1))}
+	R := r.Range(4, 8)
+	sf, wf, qf := c14OpFields(setup), c14OpFields(w), c14OpFields(queries)
+	f := append(F("hammer", c14HammerNote, "me", len(sf)), sf...)
+	f = append(append(f, F(len(wf))...), wf...)
+	f = append(append(f, F(R, len(qf))...), qf...)
+	return append(f, F(150)...)
+}
+
 func c14Gen(r *Rand, tier string, scale int, emit func(Fields)) {
 	if scale == 0 {
 		scale = 200
@@ -942,5 +1016,8 @@ func c14Gen(r *Rand, tier string, scale int, emit func(Fields)) {
 	}
 	for i := 0; i < 2+scale/40; i++ {
 		emit(c14Hammer(r.Fork()))
+	}
+	for i := 0; i < 2+scale/50; i++ {
+		emit(c14HammerWipe(r.Fork()))
 	}
 }
